@@ -304,6 +304,40 @@ theorem C33_progress_ref (get : Table → Str → Mount.Entry) (tbl : Table) (wf
   · exact Or.inr (Or.inr h1)
 
 
+/-! ### independence of the declared type -/
+
+/-- `copyfile_workflow` has no per-field test: the loop with a skip predicate that never fires IS the loop.  (All C33
+    theorems quantify over field lists `List (Str × Val)`: name and value, no declared type.) -/
+theorem C33_no_type_dependence (P : Prim) (env : Env) :
+    ∀ (fields : List (Str × Val)) (S ex : List Path) (n : Nat),
+      collectLoopSkip P env (fun _ => false) fields S ex n = collectLoop P env fields S ex n
+  | [], S, ex, n => by simp [collectLoopSkip, collectLoop]
+  | (name, v) :: fs, S, ex, n => by
+    simp only [collectLoopSkip, collectLoop, Bool.false_eq_true, if_false]
+    cases copyNested P env (some S) ex n v with
+    | error e => rfl
+    | ok q =>
+      obtain ⟨v', st⟩ := q
+      simp only [C33_no_type_dependence P env fs st.clashes st.ex st.nextId]
+
+/-- **Witness: what skipping a field costs.**  Two fields holding files of two node directories; a loop that skips field
+    `bundle` (say, because it is declared `list`) returns it untouched: its file still lies in the node directory, not in
+    the workflow directory — the "collected into the workflow's cache directory" clause fails for it — while the real loop
+    (`copyfileWorkflow`) brings both under `/wf`. -/
+theorem C33_witness_skipped_field :
+    let fields : List (Str × Val) :=
+      [("out".toList, .file ⟨1, "File".toList, ["/n1/out.txt".toList], 10⟩),
+       ("bundle".toList, .node 7 .list [.file ⟨2, "File".toList, ["/n2/out.txt".toList], 20⟩])]
+    let ex : List Path := ["/n1/out.txt".toList, "/n2/out.txt".toList]
+    let paths := fun (r : Except Err Collected) => match r with
+      | .ok c => c.fields.map (fun f => (leaves f.2).map (fun x => x.paths.map String.ofList))
+      | .error _ => []
+    paths (collectLoopSkip copyOneRef (wfEnv Mount.getMountComp [] "/wf".toList) (fun f => f.1 == "bundle".toList) fields [] ex 100)
+      = [[["/wf/out.txt"]], [["/n2/out.txt"]]]
+    ∧ paths (copyfileWorkflow copyOneRef Mount.getMountComp [] "/wf".toList fields ex 100)
+      = [[["/wf/out.txt"]], [["/wf/out (1).txt"]]] := by
+  decide +kernel
+
 /-! ### a concrete run (non-vacuity of the hypotheses `… = .ok r`, and of "names coincide") -/
 
 private def fA : FileObj := ⟨1, "File".toList, ["/n1/out.txt".toList], 10⟩
